@@ -7,6 +7,7 @@ from typing import Any, Dict, List, Optional, Tuple
 from . import terms as T
 from .values import (ClassRef, Each, EnumRef, ExtMod, Frame, FuncRef, GroupBy, Obj, PyTuple, Ser, to_term)
 from .pandas_ops2 import SeriesOps
+from .progdb import AnalysisError
 
 STABLE_KINDS = ("stable", "mergesort")
 
@@ -25,7 +26,7 @@ class Ops(SeriesOps):
         "to_dict", "itertuples", "iterrows", "items", "head", "tail", "sample", "sum", "min", "max", "insert", "to_csv",
         "sort_index", "get", "pipe", "equals", "nunique", "count", "mean", "any", "all", "isna", "isnull", "notna", "info",
         "applymap", "map", "explode", "pivot_table", "to_json", "set_axis", "squeeze", "transpose", "add_prefix", "add_suffix",
-        "nlargest", "nsmallest", "cumsum", "abs", "shift", "duplicated", "agg", "aggregate", "update", "append", "to_records", "to_string", "clip", "where",
+        "nlargest", "nsmallest", "cumsum", "abs", "shift", "duplicated", "agg", "aggregate", "update", "append", "to_records", "to_string", "clip", "where", "eval",
     }
     GB_METHODS = {"agg", "aggregate", "sum", "max", "min", "mean", "count", "size", "first", "last", "describe", "groups", "cumsum",
                   "shift", "apply", "transform", "std", "median", "nunique", "head", "tail", "cummax", "idxmax", "idxmin", "ngroup", "cumcount"}
@@ -324,12 +325,15 @@ class Ops(SeriesOps):
             mapping = kw.get("mapper", pos[0] if pos else None)
         g = f.derive()
         if isinstance(mapping, dict):
+            lab = lambda x: isinstance(x, (str, int)) and not isinstance(x, bool)          # column labels: strings, or integers (0 of an unnamed series, +-markers)
+            if any(not lab(o) or not lab(n) for o, n in mapping.items()):
+                raise AnalysisError(f"rename(columns=...): label kinds not modelled: {mapping!r}"[:160])
             vals = {}
             for old, new in mapping.items():
-                if isinstance(old, str) and isinstance(new, str) and f.has(old) is not False:
+                if f.has(old) is not False:
                     vals[new] = f.col(old)
             for old, new in mapping.items():
-                if isinstance(old, str) and isinstance(new, str) and f.has(old) is not False:
+                if f.has(old) is not False:
                     g.cols.pop(old, None)
                     g.dropped.add(old)
                     if g.known is not None and old in g.known:
@@ -825,6 +829,8 @@ class Ops(SeriesOps):
                 return (T.and_ if isinstance(n.op, ast.BitAnd) else T.or_)(ev(n.left), ev(n.right))
             if isinstance(n, ast.BinOp) and isinstance(n.op, (ast.Add, ast.Sub)):
                 return (T.add if isinstance(n.op, ast.Add) else T.sub)(ev(n.left), ev(n.right))
+            if isinstance(n, ast.BinOp) and isinstance(n.op, (ast.Mult, ast.Div)) and hasattr(T, "mul"):
+                return (T.mul if isinstance(n.op, ast.Mult) else T.div)(ev(n.left), ev(n.right))
             if isinstance(n, ast.Compare):
                 left = ev(n.left)
                 out = []
@@ -876,6 +882,37 @@ class Ops(SeriesOps):
         h = f"__hole{len(holes)}__"
         holes[h] = t
         return h
+
+    def f_eval(self, f, pos, kw, node):
+        """DataFrame.eval: one expression -> a Series over the frame's rows; `name = expr` lines -> the frame with those columns (each line sees the earlier ones)"""
+        text = pos[0] if pos else kw.get("expr")
+        if not isinstance(text, str):
+            raise AnalysisError("DataFrame.eval: expression is not a literal string")
+        lines = [ln.strip() for ln in text.strip().splitlines() if ln.strip()]
+        assigns = []
+        for ln in lines:
+            try:
+                tree = ast.parse(ln, mode="exec").body
+            except SyntaxError:
+                tree = None
+            if tree and len(tree) == 1 and isinstance(tree[0], ast.Assign) and len(tree[0].targets) == 1 and isinstance(tree[0].targets[0], ast.Name):
+                assigns.append((tree[0].targets[0].id, ast.unparse(tree[0].value)))
+            else:
+                assigns.append((None, ln))
+        if len(assigns) == 1 and assigns[0][0] is None:
+            t = self.parse_query(f, assigns[0][1], node)
+            return Ser(t, f.ctx(), f)
+        if any(a is None for a, _ in assigns):
+            raise AnalysisError("DataFrame.eval: a multi-line expression mixes assignments and values")
+        if kw.get("inplace") is True:
+            for name, expr in assigns:
+                self.set_column(f, name, Ser(self.parse_query(f, expr, node), f.ctx(), f), node)
+            return None
+        g = self.newframe(f, node, "eval")
+        for name, expr in assigns:
+            g.setcol(name, self.parse_query(g, expr, node))
+            self.log("assign-col", node, dst=g.obj, column=name, term=g.cols[name])
+        return g
 
     def f_apply(self, f, pos, kw, node):
         fn = pos[0] if pos else kw.get("func")
